@@ -375,6 +375,10 @@ DictAllows(D, cap, op, res) ==
     [] op.name = "retain"           -> DRetain(D, op.keep, op.w, res)
     [] op.name = "clear"            -> DClear(D, res)
     [] op.name = "drop"             -> DClear(D, res)
+    [] op.name = "default"          -> DClear(D, res)            \* a new empty container replaces the old one
+    [] op.name = "s_default"        -> DSClear(D, res)
+    [] op.name = "with_capacity"    -> IF op.c = cap THEN DClear(D, res) ELSE Out(res, <<"panic">>, D, {}, {})
+    [] op.name = "iter_defaults"    -> Same(res, D) /\ res.ret[1] = "lens" /\ \A i \in 1..Len(res.ret[2]) : res.ret[2][i] = 0
     [] op.name = "s_drop"           -> DSClear(D, res)
     [] op.name = "drain"            -> DDrain(D, "drain", op, res)
     [] op.name = "cursor" /\ op.kind \in {"iter", "iter_mut", "keys", "values", "values_mut"}
